@@ -136,15 +136,23 @@ def assigns_attr(node, base=None, attr=None):
 # ---------------------------------------------------------------------------
 
 def loop_body_nodes(head):
-    """Nodes of a for/while loop body: reachable from the header's body edge
-    without passing through the header again."""
-    starts = [e.dst for e in head.succ if e.kind in ('iter', 'true', 'seq')
-              and head.kind in ('for', 'loop_head')]
-    if head.kind == 'for':
-        starts = [e.dst for e in head.succ if e.kind == 'iter']
-    elif head.kind == 'loop_head':
-        starts = [e.dst for e in head.succ]
-    return C.reach(starts, blocked=[head], edge_ok=None)
+    """CFG nodes of a for/while loop body (lexical containment: nodes whose
+    AST lies inside the loop statement's body, condition tests of a while
+    included)."""
+    inside = set()
+    roots = list(head.ast.body)
+    if head.kind == 'loop_head':
+        roots.append(head.ast.test)
+    for root in roots:
+        for sub in ast.walk(root):
+            inside.add(id(sub))
+    out = set()
+    for node in C.reach([head]):
+        if node is head or node.ast is None:
+            continue
+        if id(node.ast) in inside:
+            out.add(node)
+    return out
 
 
 def loop_back_edges(head):
